@@ -26,7 +26,7 @@ LEVEL_NOTE = ("Order is decided in the bounded, restated form 'observed slope ov
               "and end positions stay inside the clip box; the metric is the start cell's, as the implementation documents. RK2 = midpoint rule.")
 RULE = ("cases: onestep (field x scheme x metric, 200 particles, 6 steps), order (field x scheme ladder), helper (analytical.get_velocityN ladder), e2e (ROMS files, linear field, scheme, "
         "dx != dy). Non-trivial: the field has non-zero second derivatives or time dependence so that the three schemes differ; distinct by (kind, field, scheme, metric).")
-MANDATORY = ["field_exactly_at_rest_at_a_step", "helper_sample_function_returning_shared_arrays", "time_step_of_odd_seconds", "e2e_reversed_time_dependent", "inactive_particles_among_the_active", "grid_corner_off_diagonal", "e2e_subgrid_off_diagonal", "onestep_EF", "onestep_RK2", "onestep_RK4", "time_dependent_field", "anisotropic_metric", "piecewise_metric", "order_EF", "order_RK2", "order_RK4",
+MANDATORY = ["e2e_reversed_forcing_over_several_files", "e2e_forcing_over_several_files", "e2e_metric_varying_along_eta_on_off_diagonal_subgrid", "field_exactly_at_rest_at_a_step", "helper_sample_function_returning_shared_arrays", "time_step_of_odd_seconds", "e2e_reversed_time_dependent", "inactive_particles_among_the_active", "grid_corner_off_diagonal", "e2e_subgrid_off_diagonal", "onestep_EF", "onestep_RK2", "onestep_RK4", "time_dependent_field", "anisotropic_metric", "piecewise_metric", "order_EF", "order_RK2", "order_RK4",
              "helper_order_1", "helper_order_2", "helper_order_4", "e2e_runs", "velocity_requests_checked"]
 ASSUMPTIONS = ["per-step displacement below about one cell (Courant <= 0.9)", "diffusion off"]
 TIMEOUT = {"quick": 900, "thorough": 3000}
@@ -345,8 +345,16 @@ def _e2e(case, wd, V, sit, cnt, keys):
     rev = bool(case["idx"] % 4 == 3)  # time-dependent field, time reversed: the scheme runs in the mirrored, sign-flipped flow
     if rev:
         offs = sorted(-o for o in offs)
-    w = dict(imax=imax, jmax=jmax, N=2, t0=start, frames=offs, files=[len(offs)], vel=lin, store="f8",
-             metric=dict(kind="uniform", dx=dx, dy=dy), h=dict(kind="flat", h=50.0))
+    files = [len(offs)]
+    if timedep and len(offs) >= 4:  # the frames spread over two or three files (a reversed run walks the files backwards)
+        a = int(rng.integers(1, len(offs) - 1))
+        files = [a, len(offs) - a]
+        if files[1] >= 3 and case["idx"] % 3 == 0:
+            files = [a, 1, files[1] - 1]
+    slope = 0.04 if case["idx"] % 5 in (2, 4) else 0.0  # grid spacing growing from row to row: the start cell's row decides the metric
+    met = dict(kind="eta_linear", dx=dx, dy=dy, slope=slope) if slope else dict(kind="uniform", dx=dx, dy=dy)
+    w = dict(imax=imax, jmax=jmax, N=2, t0=start, frames=offs, files=files, vel=lin, store="f8",
+             metric=met, h=dict(kind="flat", h=50.0))
     npart = 12
     X0 = rng.uniform(8.0, imax - 9.0, size=npart)
     Y0 = rng.uniform(8.0, jmax - 9.0, size=npart)
@@ -359,7 +367,13 @@ def _e2e(case, wd, V, sit, cnt, keys):
         _bump(sit, "e2e_subgrid_off_diagonal")
     if rev:
         _bump(sit, "e2e_reversed_time_dependent")
-    desc = dict(scheme=scheme, subgrid=sub, field=lin, dt=dt, dx=dx, dy=dy, frames_steps=[o // dt for o in offs], nsteps=nsteps)
+    if rev and len(files) > 1:
+        _bump(sit, "e2e_reversed_forcing_over_several_files")
+    if len(files) > 1:
+        _bump(sit, "e2e_forcing_over_several_files")
+    if slope and sub:
+        _bump(sit, "e2e_metric_varying_along_eta_on_off_diagonal_subgrid")
+    desc = dict(scheme=scheme, subgrid=sub, field=lin, dt=dt, dx=dx, dy=dy, files=files, metric=met, frames_steps=[o // dt for o in offs], nsteps=nsteps)
     _bump(sit, "e2e_runs")
     if not res.ok:
         V.append(C.viol(f"end-to-end run did not complete: {res.exc}", tb=res.tb[-1200:], **desc))
@@ -384,7 +398,8 @@ def _e2e(case, wd, V, sit, cnt, keys):
             V.append(C.viol(f"{scheme} end to end: record {n} position ({r.vars['X'][k]:.8f},{r.vars['Y'][k]:.8f}) differs by {err:.3g} cells from the scheme applied to the "
                             f"(exactly representable) linear field ({X[k]:.8f},{Y[k]:.8f})", **desc))
             return
-        X, Y, _s, _uv = ref.scheme_step(scheme, vel, X, Y, n * float(dt), float(dt), dx, dy)
+        fac = 1.0 + slope * np.round(Y)  # metric of the cell the step starts in
+        X, Y, _s, _uv = ref.scheme_step(scheme, vel, X, Y, n * float(dt), float(dt), dx * fac, dy * fac)
     if timedep:
         _bump(sit, "time_dependent_field")
     if dx != dy:
